@@ -2,12 +2,12 @@
 
 use super::sender::*;
 use crate::common::*;
-use crate::engine::{guard, hash_of, GenPart, Property, Stats, Tier};
+use crate::engine::{guard, hash_of, EnumPart, GenPart, Property, Stats, Tier};
 use crate::oracle::refcodec::{self, Parsed};
 use dvb_gse_rust::gse_decap::{DecapStatus, GetLabelorFragIdError, GseDecapMemory, LabelorFragId};
 use proptest::prelude::*;
 use serde::{Deserialize, Serialize};
-use serde_json::json;
+use serde_json::{json, Value};
 use std::collections::HashMap;
 
 #[derive(Clone, Debug, PartialEq, Eq, Hash, Serialize, Deserialize)]
@@ -171,12 +171,55 @@ fn check(c: &Case, st: &mut Stats) -> Result<(), String> {
     Ok(())
 }
 
+// ---- enumerated: every fragment id x every label value class ---------------------------------------------
+
+fn sweep_labels() -> Vec<(Lab, bool)> {
+    // (label, send a packet to the same label first so that the swept one is substituted)
+    let mut v: Vec<(Lab, bool)> = vec![];
+    v.extend(ALPHA6.iter().map(|b| (Lab::Six(*b), false)));
+    v.extend(SPECIAL6.iter().map(|b| (Lab::Six(*b), false)));
+    v.extend(ALPHA3.iter().map(|b| (Lab::Three(*b), false)));
+    v.extend(SPECIAL3.iter().map(|b| (Lab::Three(*b), false)));
+    v.push((Lab::Broadcast, false));
+    v.push((Lab::Six(ALPHA6[0]), true));
+    v.push((Lab::Three(SPECIAL3[0]), true));
+    v
+}
+
+fn sweep_case(i: u64) -> Case {
+    let labels = sweep_labels();
+    let nl = labels.len() as u64;
+    let frag_id = (i % 256) as u8;
+    let (lab, primed) = labels[((i / 256) % nl) as usize];
+    let shape = i / 256 / nl; // 0 complete, 1 complete + ext, 2 fragmented, 3 fragmented + ext
+    let exts = if shape % 2 == 1 { vec![ExtSpec { id: 0x0203, data: vec![0xE1, 0xE2] }, ExtSpec { id: 0x0100, data: vec![] }] } else { vec![] };
+    let one = |len: u32, first: BufSpec, exts: Vec<ExtSpec>| SendOne { pdu: Pdu { len, seed: 3 + len + frag_id as u32 }, lab, ptype: 0x86DD, frag_id, exts, first, conts: vec![], tail_base: 31, tail_span: 1, handmade: None };
+    let mut sends = vec![];
+    if primed {
+        sends.push(one(4, BufSpec::Abs(64), vec![]));
+    }
+    sends.push(if shape < 2 { one(10, BufSpec::Abs(200), exts) } else { one(100, BufSpec::Abs(40), exts) });
+    Case { send: SendCase { reuse: ReuseCfg::Enabled, sends }, tail: vec![frag_id ^ 0xFF, 0x00, 0xC0, frag_id], slots: [0u8, 1, 3][(i % 3) as usize], merge: vec![] }
+}
+
+fn check_sweep(i: u64, st: &mut Stats) -> Result<(), String> {
+    check(&sweep_case(i), st)
+}
+
 pub fn property() -> Property {
     Property {
         id: "C19",
         rule: "every packet emitted by sender sessions (encap / encap_frag / encap_ext, all label kinds incl. substituted and explicit re-use, extension chains, buffers 0..=70000) is peeked alone and followed by 1..64 random bytes, then decapsulated (followed by those bytes). oracle: peek result identical alone and followed; FragId(sender's id) for S=0 packets, Lbl(label on the wire) for start/complete packets with 3/6-byte or broadcast label also with extensions, ErrLabelReuse for re-use packets; the label equals the one decap reports for the same bytes, and for S=0 packets the context decap advanced is the one opened under the peeked id. non-trivial = session that emitted packets; classes report extension-bearing and re-use packets",
         assumptions: &["packets come from the real encapsulator; RefCodec tells what is on the wire"],
-        parts: vec![Box::new(GenPart {
+        parts: vec![Box::new(EnumPart {
+            name: "every-frag-id-x-label-value",
+            rule: "every fragment id 0..=255 x every label of the alphabets and of the special-value lists (all-ones, one bit short of all-ones, zero head / tail, single top bit, ...), broadcast, substituted 6-byte and 3-byte labels x {complete, complete + extensions, 4 fragments, 4 fragments + extensions}, receivers of 256 / 1 / 3 slots; exhaustive; same oracle",
+            size: |_| 256 * sweep_labels().len() as u64 * 4,
+            exhaustive: |_| true,
+            check: check_sweep,
+            describe: |_t, i| serde_json::to_value(sweep_case(i)).unwrap_or(Value::Null),
+            required_classes: &["frag-id", "label", "reuse-error", "packet-with-extensions", "has-packets", "few-slots"],
+        }), Box::new(GenPart {
             name: "peek-vs-decap",
             rule: "see property rule",
             cases: (360_000, 9_000_000),
